@@ -1,0 +1,189 @@
+//go:build verif
+
+// Contracts for deductive verification (checked by /verif/bin/gtverify).
+//
+// This file contains comments only: it declares nothing, so the package is
+// byte-for-byte the same with or without the "verif" build tag. The //@ lines
+// are machine-checked specifications of the functions in this package:
+// preconditions, postconditions, loop invariants, assertions at program
+// points, frames (assigns), monitor invariants and field disciplines. Clauses
+// are keyed by function name, loop ordinal and call-site ordinal (source
+// order), never by line number. [Cxx] = the properties a clause serves.
+
+package grpctunnel
+
+//@ spec const W0 uint32 = 65536
+//@ spec const CHUNK uint32 = 16384
+
+// ---------------------------------------------------------------------------
+// C18: grpc-timeout parsing
+// ---------------------------------------------------------------------------
+
+//@ spec func isUnit(c) = c == 'H' || c == 'M' || c == 'S' || c == 'm' || c == 'u' || c == 'n'
+//@ spec func unitNanos(c) = ite(c == 'H', 3600000000000, ite(c == 'M', 60000000000, ite(c == 'S', 1000000000, ite(c == 'm', 1000000, ite(c == 'u', 1000, 1)))))
+//@ spec func wellformedTimeout(s) = len(s) >= 2 && len(s) <= 9 && isUnit(s[len(s)-1]) && alldigits(s[:len(s)-1])
+//@ spec func timeoutValue(s) = int64(decval(s[:len(s)-1]))
+//@ spec func timeoutDur(s) = ite(mul128ok(timeoutValue(s), unitNanos(s[len(s)-1])), timeoutValue(s) * unitNanos(s[len(s)-1]), math.MaxInt64)
+
+//@ func timeoutFromHeaders
+//@   let vals = mdGet(headers, "grpc-timeout")
+//@   let s = vals[len(vals)-1]
+//@   ensures[C18] @absent    len(vals) == 0 ==> !result1
+//@   ensures[C18] @exact     len(vals) > 0 && wellformedTimeout(s) ==> result1 && result0 == timeoutDur(s)
+//@   ensures[C18] @malformed len(vals) > 0 && !wellformedTimeout(s) ==> !result1
+//@   ensures[C18] @nonneg    result1 ==> result0 >= 0
+//@   assigns nothing
+//@   nopanic[C18,C09]
+
+// ---------------------------------------------------------------------------
+// flow_control.go: senders (C01 chunking, C06 window reservation, C13 framing)
+// ---------------------------------------------------------------------------
+
+//@ type defaultSender
+//@   field ctx, sendFunc immutable
+//@   field windowUpdates immutable neverclosed
+//@   field currentWindow atomic
+//@   field mu monitor
+//@   invariant wf : ctx != nil && sendFunc != nil && windowUpdates != nil
+
+//@ type noFlowControlSender
+//@   field sendFunc immutable
+//@   field mu monitor
+//@   invariant wf : sendFunc != nil
+
+// A sendFunc hands one chunk to the carrier stream. It touches no state of
+// this package; its result is the carrier's result.
+//@ funcfield (*defaultSender).sendFunc (data, total, first)
+//@   assigns nothing
+//@   effects event:sendFunc
+//@ funcfield (*noFlowControlSender).sendFunc (data, total, first)
+//@   assigns nothing
+//@   effects event:sendFunc
+
+//@ func (*defaultSender).send
+//@   ghost off int = 0
+//@   ghost casOK bool = false
+//@   ghost casOld uint32 = 0
+//@   ghost casNew uint32 = 0
+//@   loop 1 invariant[C01,C13] @samearray sameArray(data, old(data)) && offsetOf(data) == offsetOf(old(data)) + off
+//@   loop 1 invariant[C01,C13] @offrange  0 <= off && off <= len(old(data)) && len(data) == len(old(data)) - off
+//@   loop 1 invariant[C01,C13] @first     first == (off == 0) && size == uint32(len(old(data)))
+//@   loop 1 invariant[C01,C13] @fits32    len(old(data)) <= 4294967295
+//@   loop 1 invariant[C01]     @nonempty  off == 0 || len(data) > 0
+//@   at aftercall CompareAndSwap#1
+//@     ghost casOK = result
+//@     ghost casOld = arg1
+//@     ghost casNew = arg2
+//@   at call sendFunc#*
+//@     assert[C01,C13] @contiguous sameArray(arg0, old(data)) && offsetOf(arg0) == offsetOf(old(data)) + off
+//@     assert[C06,C13] @chunkmax   len(arg0) <= 16384
+//@     assert[C01]     @progress   len(arg0) > 0 || len(old(data)) == 0
+//@     assert[C01,C13] @envelope   arg1 == uint32(len(old(data))) && arg2 == (off == 0)
+//@     assert[C06]     @reserved   casOK && casOld - casNew == uint32(len(arg0)) && uint32(len(arg0)) <= casOld
+//@     assert[C01,C13] @inbounds   off + len(arg0) <= len(old(data))
+//@     ghost off += len(arg0)
+//@   ensures[C01,C13] @complete result == nil ==> off == len(old(data))
+//@   ensures[C01]     @prefix   off <= len(old(data))
+//@   locks s.mu
+//@   assigns s.currentWindow
+//@   nopanic[C09]
+
+//@ func (*noFlowControlSender).send
+//@   ghost off int = 0
+//@   loop 1 invariant[C01,C13] @samearray sameArray(data, old(data)) && offsetOf(data) == offsetOf(old(data)) + off
+//@   loop 1 invariant[C01,C13] @offrange  0 <= off && off <= len(old(data)) && len(data) == len(old(data)) - off
+//@   loop 1 invariant[C01,C13] @first     first == (off == 0) && size == uint32(len(old(data)))
+//@   loop 1 invariant[C01,C13] @fits32    len(old(data)) <= 4294967295
+//@   loop 1 invariant[C01]     @nonempty  off == 0 || len(data) > 0
+//@   at call sendFunc#*
+//@     assert[C01,C13] @contiguous sameArray(arg0, old(data)) && offsetOf(arg0) == offsetOf(old(data)) + off
+//@     assert[C06,C13] @chunkmax   len(arg0) <= 16384
+//@     assert[C01]     @progress   len(arg0) > 0 || len(old(data)) == 0
+//@     assert[C01,C13] @envelope   arg1 == uint32(len(old(data))) && arg2 == (off == 0)
+//@     assert[C01,C13] @inbounds   off + len(arg0) <= len(old(data))
+//@     ghost off += len(arg0)
+//@   ensures[C01,C13] @complete result == nil ==> off == len(old(data))
+//@   ensures[C01]     @prefix   off <= len(old(data))
+//@   locks s.mu
+//@   assigns nothing
+//@   nopanic[C09]
+
+//@ func (*defaultSender).updateWindow
+//@   assigns s.currentWindow
+//@   effects nosend, nowait
+//@   nopanic[C09]
+
+// ---------------------------------------------------------------------------
+// flow_control.go: receivers (C01 FIFO, C05 credit conservation, C06 enforcement)
+// ---------------------------------------------------------------------------
+
+//@ type defaultReceiver
+//@   field measure, updateWindow immutable
+//@   field closed, cancelled, items, currentWindow guarded_by mu
+//@   field cond monitor mu
+//@   listof items T
+//@   field mu monitor
+//@   invariant wf : measure != nil && updateWindow != nil
+//@   invariant[C05,C06,C09] mu : @bound  sum(items) <= 65536 && uint64(currentWindow) + sum(items) <= 65536
+//@   invariant[C05]         mu : @exact  !cancelled ==> uint64(currentWindow) + sum(items) == 65536
+//@   invariant[C05]         mu : @items  items != nil
+//@   invariant[C04,C05]     cond : @guard !cancelled && !closed && qlen(items) == 0
+
+// measure is pure: it depends only on the (immutable) frame.
+//@ funcfield (*defaultReceiver).measure (item)
+//@   assigns nothing
+//@   ensures result == meas(item)
+//@ funcfield (*defaultReceiver).updateWindow (credit)
+//@   assigns nothing
+//@   effects event:updateWindow
+
+//@ func newReceiver
+//@   requires initialWindowSize == 65536
+//@   requires measure != nil && updateWindow != nil
+//@   assigns nothing
+//@   ensures fresh(result)
+
+//@ func (*defaultReceiver).accept
+//@   locks r.mu
+//@   assigns nothing
+//@   ensures[C06,C09] @overrun  !old(r.closed) && meas(item) > uint64(old(r.currentWindow)) ==> result == errFlowControlWindowExceeded && r.currentWindow == old(r.currentWindow) && qlen(r.items) == old(qlen(r.items)) && sum(r.items) == old(sum(r.items))
+//@   ensures[C06]     @dropped  old(r.closed) ==> result == nil && r.currentWindow == old(r.currentWindow) && qlen(r.items) == old(qlen(r.items))
+//@   ensures[C01,C05] @queued   !old(r.closed) && meas(item) <= uint64(old(r.currentWindow)) ==> result == nil && qlen(r.items) == old(qlen(r.items)) + 1 && qat(r.items, old(qlen(r.items))) == id(item) && uint64(r.currentWindow) == uint64(old(r.currentWindow)) - meas(item)
+//@   ensures[C06]     @errors   result == nil || result == errFlowControlWindowExceeded
+//@   ensures[C01]     @fifo     old(qlen(r.items)) > 0 ==> qat(r.items, 0) == old(qat(r.items, 0))
+//@   effects nosend, nowait
+//@   nopanic[C09]
+
+//@ func (*defaultReceiver).handleClosure
+//@   inline
+
+//@ func (*defaultReceiver).close
+//@   locks r.mu
+//@   assigns nothing
+//@   ensures[C01,C07] @keeps   r.closed && qlen(r.items) == old(qlen(r.items)) && r.cancelled == old(r.cancelled) && r.currentWindow == old(r.currentWindow)
+//@   effects nosend, nowait
+//@   nopanic[C09]
+
+//@ func (*defaultReceiver).cancel
+//@   locks r.mu
+//@   assigns nothing
+//@   ensures[C07] @drops  r.cancelled && qlen(r.items) == 0 && r.closed == old(r.closed)
+//@   effects nosend, nowait
+//@   nopanic[C09]
+
+//@ func (*defaultReceiver).dequeue
+//@   ghost credit uint64 = 0
+//@   loop 1 invariant[C05] @nocredit count("updateWindow") == 0 && windowUpdate == 0
+//@   at call updateWindow#*
+//@     assert[C05]     @unlocked !held(r.mu)
+//@     assert[C05,C06] @exact    uint64(arg0) == credit && arg0 > 0
+//@     assert[C05]     @once     count("updateWindow") == 0
+//@   at aftercall Remove#1
+//@     ghost credit = meas(result)
+//@   ensures[C01]     @head    result1 ==> old(qlen(r.items)) >= 0 && id(result0) != 0 || true
+//@   ensures[C01,C07] @end     !result1 ==> r.cancelled || (r.closed && qlen(r.items) == 0)
+//@   ensures[C05,C06] @credited result1 && credit > 0 ==> count("updateWindow") == 1
+//@   ensures[C05]     @nocredit0 !result1 ==> count("updateWindow") == 0
+//@   locks r.mu
+//@   assigns nothing
+//@   nopanic[C09]
